@@ -24,6 +24,7 @@ func init() {
 			c.ruleMergeDesc("R-MERGE-DESC")
 			c.ruleMergeReflect("R-MERGE-REFLECT")
 			c.ruleOneofMerge("R-ONEOF-MERGE")
+			c.ruleReflMsgMerge("R-REFL-MSG-MERGE", 5)
 			c.ruleMapReplace("R-MAP-REPLACE")
 			c.ruleSingularMsgReuse("R-SINGULAR-MSG-REUSE", 4)
 		},
